@@ -15,6 +15,7 @@ import json
 from gsim.checks import common as C
 from gsim.core.prng import stream, digest
 from gsim.ref import asmjson as AJ
+from gsim.work import blocks as B
 from gsim.work import contracts as CT
 from gsim.work import corpus
 from gsim.work import options as O
@@ -45,6 +46,14 @@ def plan(tier, seed, batch):
     return [{"index": batch * 100000 + i, "seed": seed, "tier": tier} for i in range(n)]
 
 
+def repeated_subblocks(rw):
+    a, b = rw.sample([1, 2, 3], 2)
+    f = rw.choice(["ADD", "SUB", "AND", "OR", "XOR", "MUL"])
+    neutral = rw.choice([[("PUSH", "0"), ("ADD", None)], [("PUSH", "1"), ("MUL", None)], [("PUSH", "0"), ("OR", None)], [("PUSH", "0"), ("XOR", None)]])
+    seg = [("DUP%d" % a, None), ("DUP%d" % (b + 1), None), (f, None)] + neutral + [("PUSH", "0"), ("PUSH", "0"), ("LOG1", None)]
+    return seg * rw.choice([2, 2, 3]) + [("STOP", None)]
+
+
 def base_op(spec):
     i = spec["index"]
     rw = stream(spec["seed"], i, "workload")
@@ -58,6 +67,11 @@ def base_op(spec):
     else:
         doc = CT.gen_combined(rw, ncontracts=rw.choice([1, 2]), nblocks_init=1, nblocks_run=2 if small else 5,
                               block_kw={"length": 7 if small else None})
+    if i % 8 == 3:
+        # a block that repeats the same optimizable code in consecutive sub-blocks (two identical event emissions): what a
+        # checker remembers from one sub-block must not leak into the next (task() tampers the later entries)
+        doc = CT.gen_combined(rw, ncontracts=1, nblocks_init=1, nblocks_run=2, blocks=[
+            B.gen_block(rw, ending=True, pseudo=False, length=4), repeated_subblocks(rw), B.gen_block(rw, ending=True, pseudo=False, length=5)])
     if i % 5 == 1:
         # a block whose analysis is impossible: it stays as it is in the direct run, so it has to stay in the replay too
         CT.inject_unanalysable(doc, stream(spec["seed"], i, "unanalysable"))
@@ -255,6 +269,7 @@ def task(spec):
 
     def choose_tampers(log_text):
         out = list(T.targeted_tampers(log_text))          # deterministic: the operands of the first stores
+        out += T.later_subblock_tampers(log_text, limit=10 if i % 8 == 3 else 2)
         for _ in range(5 if spec["tier"] == "quick" else 12):
             out.append(T.tamper_log(rt, log_text, []))
         return out
